@@ -37,7 +37,9 @@ class P(ServeProp):
         R = [b"GET /a.txt HTTP/1.1\r\n\r\n", b"GET /big.bin HTTP/1.1\r\n\r\n", b"GET /big.bin HTTP/1.1\r\nRange: bytes=100-199\r\n\r\n",
              b"GET /big.bin HTTP/1.1\r\nRange: bytes=0-9,1000-1009,999990-\r\n\r\n", b"HEAD /a.txt HTTP/1.1\r\n\r\n", b"OPTIONS /a.txt HTTP/1.1\r\nOrigin: https://x\r\n\r\n",
              b"GET / HTTP/1.1\r\n\r\n", b"GET /style.css HTTP/1.1\r\n\r\n", b"GET /missing HTTP/1.1\r\n\r\n", b"GET x HTTP/1.1\r\n\r\n", b"\xff\xfe\r\n\r\n",
-             b"GET /a.txt HTTP/1.1\r\nRange: bytes=5-2\r\n\r\n", b"GET /../a.txt HTTP/1.1\r\n\r\n"]
+             b"GET /a.txt HTTP/1.1\r\nRange: bytes=5-2\r\n\r\n", b"GET /../a.txt HTTP/1.1\r\n\r\n",
+             # a relative link to a large file in a sub-directory, and the file that shares its name with one in the root
+             b"GET /sub/link.bin HTTP/1.1\r\n\r\n", b"GET /sub/link.bin HTTP/1.1\r\n\r\n", b"GET /sub/a.txt HTTP/1.1\r\n\r\n", b"GET /sub/link.bin HTTP/1.1\r\nRange: bytes=0-9\r\n\r\n"]
         for i in range(12):
             R.append(b"GET /form-get-method?k%d=v%d&common=%d HTTP/1.1\r\n\r\n" % (i, i, i))
             body = b"field%d=value%d&n=%d" % (i, i, i)
